@@ -4,6 +4,7 @@ index preservation.
 -/
 import SkVerif.Model.SeriesTransform
 import SkVerif.Lemmas.SeriesShift
+import SkVerif.Lemmas.HampelPos
 namespace SkVerif.Lem.ST
 open SkVerif SkVerif.ST
 
@@ -95,7 +96,7 @@ theorem hasInverse_shift (c : Int) (st : TState) : hasInverse (shiftState c st) 
   | pass p i h f ft ihp _ => simpa [shiftState, hasInverse] using ihp
 
 /-- **shift equivariance of one call** (all calls except `fit_transform`) -/
-theorem stepBasic_shift (reg : Reg) (c : Int) (st : TState) (hp : Positional st) (op : Op) :
+theorem stepBasic_shift (reg : Reg) (c : Int) (st : TState) (op : Op) :
     stepBasic reg (shiftState c st) (shiftOp c op)
       = (shiftState c (stepBasic reg st op).1, shiftOut c (stepBasic reg st op).2) := by
   induction st generalizing op with
@@ -129,15 +130,29 @@ theorem stepBasic_shift (reg : Reg) (c : Int) (st : TState) (hp : Positional st)
       · rfl
       · simp only [colApply_shift, shiftState]
     | fitTransform inp d f => rfl
-  | hampel cfg f => exact absurd hp (by simp [Positional])
+  | hampel cfg f =>
+    cases op with
+    | fit inp d => rfl
+    | update inp u => rfl
+    | transform inp g =>
+      simp only [shiftState, shiftOp, stepBasic]
+      split
+      · rfl
+      · rw [checkSeries_shift]
+        cases checkSeries false inp with
+        | error e => rfl
+        | ok z =>
+          simp only [Except.map, hampel_shift]
+          cases hampel cfg z <;> rfl
+    | inverse inp g => rfl
+    | fitTransform inp d g => rfl
   | pass p i h flag ft ihp ihi =>
-    obtain ⟨hpp, hpi⟩ := hp
     cases op with
     | fit inp d =>
       simp only [shiftState, shiftOp, stepBasic]
       split
       · rfl
-      · have := ihp hpp (.fit inp d)
+      · have := ihp (.fit inp d)
         simp only [shiftOp] at this
         rw [this]
         cases h2 : (stepBasic reg p (.fit inp d)).2 <;> simp [shiftOut, shiftState]
@@ -153,7 +168,7 @@ theorem stepBasic_shift (reg : Reg) (c : Int) (st : TState) (hp : Positional st)
           simp only [Except.map]
           split
           · rfl
-          · have := ihi hpi (.transform (.series z) f)
+          · have := ihi (.transform (.series z) f)
             simp only [shiftOp, shiftInput] at this
             rw [this]
             simp [shiftState]
@@ -170,104 +185,42 @@ theorem stepBasic_shift (reg : Reg) (c : Int) (st : TState) (hp : Positional st)
             simp only [Except.map]
             split
             · rfl
-            · have := ihi hpi (.inverse (.series z) f)
+            · have := ihi (.inverse (.series z) f)
               simp only [shiftOp, shiftInput] at this
               rw [this]
               simp [shiftState]
     | fitTransform inp d f => rfl
 
-/-- the state stays free of Hampel filters -/
-theorem stepBasic_positional (reg : Reg) (st : TState) (hp : Positional st) (op : Op) :
-    Positional (stepBasic reg st op).1 := by
-  induction st generalizing op with
-  | des s => cases op <;> simp [stepBasic, Positional]
-  | det s => cases op <;> simp [stepBasic, Positional]
-  | col s =>
-    cases op <;> simp only [stepBasic, Positional]
-    split <;> trivial
-  | hampel cfg f => exact absurd hp (by simp [Positional])
-  | pass p i h flag ft ihp ihi =>
-    obtain ⟨hpp, hpi⟩ := hp
-    cases op with
-    | fit inp d =>
-      simp only [stepBasic]
-      split
-      · exact ⟨hpp, hpi⟩
-      · have := ihp hpp (.fit inp d)
-        cases h2 : (stepBasic reg p (.fit inp d)).2 <;> exact ⟨hpp, this⟩
-    | update inp u => exact ⟨hpp, hpi⟩
-    | transform inp f =>
-      simp only [stepBasic]
-      split
-      · exact ⟨hpp, hpi⟩
-      · cases checkSeries false inp with
-        | error e => exact ⟨hpp, hpi⟩
-        | ok z =>
-          simp only
-          split
-          · exact ⟨hpp, hpi⟩
-          · exact ⟨hpp, ihi hpi _⟩
-    | inverse inp f =>
-      simp only [stepBasic]
-      split
-      · exact ⟨hpp, hpi⟩
-      · split
-        · exact ⟨hpp, hpi⟩
-        · cases checkSeries false inp with
-          | error e => exact ⟨hpp, hpi⟩
-          | ok z =>
-            simp only
-            split
-            · exact ⟨hpp, hpi⟩
-            · exact ⟨hpp, ihi hpi _⟩
-    | fitTransform inp d f => exact ⟨hpp, hpi⟩
-
-theorem step_shift (reg : Reg) (c : Int) (st : TState) (hp : Positional st) (op : Op) :
+theorem step_shift (reg : Reg) (c : Int) (st : TState) (op : Op) :
     step reg (shiftState c st) (shiftOp c op)
       = (shiftState c (step reg st op).1, shiftOut c (step reg st op).2) := by
   cases op with
   | fitTransform inp d f =>
     simp only [step, shiftOp]
-    have h1 := stepBasic_shift reg c st hp (.fit inp d)
+    have h1 := stepBasic_shift reg c st (.fit inp d)
     simp only [shiftOp] at h1
     rw [h1]
-    have hp1 := stepBasic_positional reg st hp (.fit inp d)
     cases h2 : (stepBasic reg st (.fit inp d)).2 with
     | ok =>
-      have := stepBasic_shift reg c _ hp1 (.transform inp f)
+      have := stepBasic_shift reg c (stepBasic reg st (.fit inp d)).1 (.transform inp f)
       simpa [shiftOp, shiftOut] using this
     | err e => simp [shiftOut]
     | ser z =>
-      have := stepBasic_shift reg c _ hp1 (.transform inp f)
+      have := stepBasic_shift reg c (stepBasic reg st (.fit inp d)).1 (.transform inp f)
       simpa [shiftOp, shiftOut] using this
-  | fit inp d => exact stepBasic_shift reg c st hp _
-  | update inp u => exact stepBasic_shift reg c st hp _
-  | transform inp f => exact stepBasic_shift reg c st hp _
-  | inverse inp f => exact stepBasic_shift reg c st hp _
+  | fit inp d => exact stepBasic_shift reg c st _
+  | update inp u => exact stepBasic_shift reg c st _
+  | transform inp f => exact stepBasic_shift reg c st _
+  | inverse inp f => exact stepBasic_shift reg c st _
 
-theorem step_positional (reg : Reg) (st : TState) (hp : Positional st) (op : Op) :
-    Positional (step reg st op).1 := by
-  cases op with
-  | fitTransform inp d f =>
-    simp only [step]
-    have hp1 := stepBasic_positional reg st hp (.fit inp d)
-    cases h2 : (stepBasic reg st (.fit inp d)).2 with
-    | ok => exact stepBasic_positional reg _ hp1 _
-    | err e => exact hp1
-    | ser z => exact stepBasic_positional reg _ hp1 _
-  | fit inp d => exact stepBasic_positional reg st hp _
-  | update inp u => exact stepBasic_positional reg st hp _
-  | transform inp f => exact stepBasic_positional reg st hp _
-  | inverse inp f => exact stepBasic_positional reg st hp _
-
-theorem run_shift (reg : Reg) (c : Int) (st : TState) (hp : Positional st) (ops : List Op) :
+theorem run_shift (reg : Reg) (c : Int) (st : TState) (ops : List Op) :
     run reg (shiftState c st) (ops.map (shiftOp c)) = (run reg st ops).map (shiftOut c) := by
   induction ops generalizing st with
   | nil => rfl
   | cons op ops ih =>
     simp only [List.map_cons, run]
-    rw [step_shift reg c st hp op]
+    rw [step_shift reg c st op]
     simp only [List.cons.injEq, true_and]
-    exact ih _ (step_positional reg st hp op)
+    exact ih _
 
 end SkVerif.Lem.ST
